@@ -111,6 +111,22 @@ def run(ctx):
         ok = bool(s) and any(t.op == "call" and B.cname(t) == "Mul::mul" for t in subterms(s[0].args[0]))
         ctx.ob("E3.challenge", "generate_timestamp_proof/u", ok, "y is derived from the commitment u = hash_to_point(msg,dst)*x actually returned", where=where(f))
     PR.check_timeout(ctx, "E4.timeout", P)
+    # the freshness test only ever rejects: whatever verify_timestamp_proof returns as success is the verdict of the pairing
+    # check `verify(commitment, proof, pk, compute_y(commitment, t), msg, dst)` - never a success of its own
+    fv = P.fns.get("BlsSignatureProof::verify_timestamp_proof")
+    if fv is not None:
+        evv = evaluate(fv)
+        rv = strip_sites(evv.ret)
+        alts = list(rv.a[0]) if rv.op == "phi" else [rv]
+        own_ok = [a_ for a_ in alts if a_.op == "agg" and a_.a[0][0] == "adt" and a_.a[0][1] == "Result" and a_.a[0][2] == "Ok"]
+        ver = [a_ for a_ in alts if a_.op == "call" and B.cname(a_) == "BlsSignatureProof::verify"]
+        args_ok = bool(ver)
+        for a_ in ver:
+            names = [(F.projection_root(x) or [None])[0] for x in a_.a[1]]
+            nm = [n_.a[1] if n_ is not None and n_.op == "param" else None for n_ in names]
+            ycall = B.peel(a_.a[1][3]) if len(a_.a[1]) > 3 else None
+            args_ok = args_ok and len(a_.a[1]) == 6 and nm[:3] == ["commitment", "proof", "pk"] and nm[4:] == ["msg", "dst"] and ycall is not None and ycall.op == "call" and B.cname(ycall) == "BlsSignatureProof::compute_y"
+        ctx.ob("E4.pairing", "BlsSignatureProof::verify_timestamp_proof/ok", not own_ok and args_ok, "success of verify_timestamp_proof is the verdict of verify(commitment, proof, pk, compute_y(..), msg, dst) itself (alternatives returned: %s)" % [show(a_, 2) for a_ in alts][:5], where=where(fv))
     # guards (C04 subset) + accept through pairing
     for fk, kind, subj in (
         ("BlsSignatureProof::verify", "is_identity", ("param", "commitment")),
